@@ -13,6 +13,16 @@ CHECKS = {
          'Small-scope: significands <= 15 and exponents in [-3,3] plus a few wide/huge encodings; Python int/Fraction trusted.',
          '§5 C05'),
 }
+CHECKS['C01'] = (
+ 'bounded exhaustive enumeration of every small-format configuration x mode x overflow mode x per-binade operand grid, '
+ 'each rounding compared with an exact-rational rounding oracle (set of admissible outcomes)',
+ 'All configurations of every context family with small parameters (IEEE/EFloat up to 7 bits with every NaN kind, infinity '
+ 'option, offset and substitute; MP/MPS/MPB floats p<=5; all fixed-point families <=5 bits; Exp; REAL) x 8 modes x every '
+ 'overflow mode x every multiple of quantum/8 in every binade from below the smallest value to past the overflow threshold, '
+ 'in five operand forms, through round / round_at / round_integer / exact=True; value, both flags and membership compared.',
+ 'Small-scope: the rounding code is parametric in p/es/nbits/emin; value sets of encodable formats come from decode() (C16). '
+ 'RTE/RTO overflow arm, sign of substituted specials, flags of special operands and error types are left open as the '
+ 'documentation does.', '§5 C01')
 PENDING = {}
 
 def main():
